@@ -184,8 +184,17 @@ def check(pid, tier, seed, jobs, out=print):
     harness_trouble = []
     capped = False
     ctx = multiprocessing.get_context('fork')
-    with concurrent.futures.ProcessPoolExecutor(max_workers=jobs, mp_context=ctx) as ex:
-        futs = [ex.submit(_worker, t) for t in tasks]
+    # The batch runs in several generations of worker processes, each generation forked afresh from this (pristine) process:
+    # state that the tree under test keeps per process (module-level caches filled on first use) is then exercised from many
+    # different first uses instead of one per worker.  Which scenario runs in which generation is a function of the task order.
+    ngen = max(1, min(int(os.environ.get('VERIF_GENERATIONS', '6' if tier == 'quick' else '12')), len(tasks)))
+    # (interleaved slices: every generation gets runs from the whole index range, so that rare run families are spread too)
+    slices = [tasks[g::ngen] for g in range(ngen)]
+    for gen_tasks in slices:
+      if capped:
+          break
+      with concurrent.futures.ProcessPoolExecutor(max_workers=jobs, mp_context=ctx) as ex:
+        futs = [ex.submit(_worker, t) for t in gen_tasks]
         for f in futs:
             left = WALL_CAP[tier] - (time.time() - t0)
             if left <= 0:
